@@ -105,17 +105,18 @@ func shortStructName(full string) string {
 
 // resolve applies the type-parameter substitution.
 func resolve(t types.Type, subst map[*types.TypeParam]types.Type) types.Type {
-	for {
+	for i := 0; i < 8; i++ {
 		tp, ok := t.(*types.TypeParam)
 		if !ok {
 			return t
 		}
 		r, ok := subst[tp]
-		if !ok {
+		if !ok || r == t {
 			return t
 		}
 		t = r
 	}
+	return t
 }
 
 var opaquePkgs = map[string]bool{
